@@ -27,6 +27,11 @@ pub mod ext {
     pub broadcast proof fn axiom_fd_raw_ref<F>(f: &F)
         ensures #[trigger] fd_raw::<&F>(&f) == fd_raw::<F>(f),
     {}
+    /// ASSUMED: an Arc of an AsFd object designates the descriptor of the object (std: `impl AsFd for Arc<T>`)
+    #[verifier::external_body]
+    pub broadcast proof fn axiom_fd_raw_arc<F>(f: &std::sync::Arc<F>)
+        ensures #[trigger] fd_raw::<std::sync::Arc<F>>(f) == fd_raw::<F>(&**f),
+    {}
     /// ASSUMED: BorrowedFd::borrow_raw(fd) designates the descriptor fd
     pub assume_specification<'a> [std::os::fd::BorrowedFd::<'a>::borrow_raw] (fd: std::os::fd::RawFd) -> (r: std::os::fd::BorrowedFd<'a>)
         ensures fd_raw(&r) == fd as int;
@@ -116,7 +121,10 @@ pub mod ext {
     pub assume_specification<T: ?Sized> [RefCell::<T>::borrow] (c: &RefCell<T>) -> (r: std::cell::Ref<'_, T>);
     // RefCell: contents are opaque (DESIGN 1.3): a borrow yields an arbitrary value of T.
     pub assume_specification<T: ?Sized> [RefCell::<T>::borrow_mut] (c: &RefCell<T>) -> (r: RefMut<'_, T>);
-    pub assume_specification<T: ?Sized> [RefCell::<T>::try_borrow_mut] (c: &RefCell<T>) -> (r: Result<RefMut<'_, T>, std::cell::BorrowMutError>);
+    /// try_borrow_mut on this cell has failed (it was already borrowed): monotone witness
+    pub uninterp spec fn w_borrow_failed<T: ?Sized>(c: &RefCell<T>) -> bool;
+    pub assume_specification<T: ?Sized> [RefCell::<T>::try_borrow_mut] (c: &RefCell<T>) -> (r: Result<RefMut<'_, T>, std::cell::BorrowMutError>)
+        ensures r is Err ==> w_borrow_failed(c);
 }
 //@ region prelude_std_vec
 pub mod ext_vec {
